@@ -354,6 +354,7 @@ impl StorageEngine {
         if let Some(stored_value) = shard_guard.data.get_mut(key) {
             stored_value.metadata.set_expiration(expires_in);
             shard_guard.expiring_keys.insert(key.to_vec(), Instant::now() + expires_in);
+            shard_guard.mark_modified(key);
             Ok(true)
         } else {
             Ok(false)
@@ -470,6 +471,12 @@ impl StorageEngine {
             // Calculate memory to free from this shard
             for (key, stored_value) in shard_guard.data.iter() {
                 total_memory_to_free += self.calculate_value_size(key, &stored_value.value);
+            }
+            
+            // Every key of this shard goes away: WATCHers of any of them must see it
+            let flushed_keys: Vec<Key> = shard_guard.data.keys().cloned().collect();
+            for key in &flushed_keys {
+                shard_guard.mark_modified(key);
             }
             
             shard_guard.data.clear();
@@ -2105,6 +2112,7 @@ impl StorageEngine {
             if stored_value.metadata.expires_at.is_some() {
                 stored_value.metadata.clear_expiration();
                 shard_guard.expiring_keys.remove(key);
+                shard_guard.mark_modified(key);
                 Ok(true)
             } else {
                 Ok(false)
